@@ -346,63 +346,109 @@ def rule_columns(prog, rep):
 
 
 # ---------------------------------------------------------------------------------- R4
+NAMES_FF = {"FFR": {"FA": 1, "FB": 2, "H1": 9, "1HB": 10, "O1'": 11, "C5*": 12, "OXT": 13}, "RESQ": {"FA": 4}, "XALA": {"N": 5}, "GLY": {"H": 6, "HA2": 7, "FA": 8}}
+NAMES_REFERENCE = ["RES", "RESB", "XRES", "NALA", "NGLY", "GLY"]
+NAMES_BLOCKS = [
+    {"name": "RES", "use": "FFR", "atoms": [("CA1", "FA"), ("ZZ", "NOPE")]},
+    {"name": "N(ALA|GLY)", "use": "X$group", "atoms": []},
+    {"name": "GLY", "use": None, "atoms": [("HA3", "HA2")]},
+]
+
+
+def names_expected():
+    """The documented meaning of a .names file, applied to the model force field (atoms are identified by number)."""
+    m = {r: dict(a) for r, a in NAMES_FF.items()}
+    for blk in NAMES_BLOCKS:
+        pat, use = blk["name"], blk["use"]
+        if use is not None:
+            for key in NAMES_REFERENCE:
+                mm = re.fullmatch(pat, key)
+                if not mm:
+                    continue
+                src = use.replace("$group", mm.group(1)) if "$group" in use else use
+                if src not in m:
+                    continue
+                tgt = m.setdefault(key, {})
+                tgt.update(m[src])
+        for key in list(m):
+            if blk["atoms"] and re.fullmatch(pat, key):
+                for new, old in blk["atoms"]:
+                    if old in m[key]:
+                        m[key][new] = m[key][old]
+    return m
+
+
+def names_events():
+    ev = []
+    ws = ("chars", "\n    ")
+    for blk in NAMES_BLOCKS:
+        ev += [("start", "residue"), ws, ("start", "name"), ("chars", blk["name"]), ("end", "name"), ws]
+        if blk["use"] is not None:
+            ev += [("start", "useresname"), ("chars", blk["use"]), ("end", "useresname"), ws]
+        for new, old in blk["atoms"]:
+            ev += [("start", "atom"), ws, ("start", "name"), ("chars", new), ("end", "name"), ws,
+                   ("start", "useatomname"), ("chars", old), ("end", "useatomname"), ws, ("end", "atom"), ws]
+        ev += [("end", "residue"), ws]
+    return ev
+
+
 def rule_fullmatch(prog, rep):
-    r = rep.rule("R4", "names-file patterns are applied as full matches; aliasing copies every atom", floor=3)
-    fi = prog.func("forcefield.py", "ForcefieldHandler.find_matching_names")
-    fn = fi.node
-    where = f"pdb2pqr/forcefield.py:{fn.lineno} (ForcefieldHandler.find_matching_names)"
-    src = U(fn)
-    anchored_end = bool(re.search(r"regname\s*(\+=|= regname \+)\s*'\$'", src)) or "fullmatch" in src or "'$'" in src
-    uses_match = ".match(" in src or "fullmatch(" in src
-    uses_search = ".search(" in src or ".findall(" in src
-    r.add("fullmatch", anchored_end and uses_match and not uses_search,
-          f"pattern end-anchored={anchored_end}, applied with match/fullmatch={uses_match}, search/findall={uses_search}", where)
-    um = prog.func("forcefield.py", "ForcefieldHandler.update_map").node
-    loops = [s for s in iter_stmts(um.body) if isinstance(s, ast.For) and U(s.iter).endswith(".atoms")]
-    ok = False
-    for lp in loops:
-        direct = [s for s in lp.body if isinstance(s, ast.Assign)]
-        filt = [s for s in iter_stmts(lp.body) if isinstance(s, (ast.If, ast.Continue, ast.Break))]
-        if direct and not filt:
-            ok = True
-    r.add("copy-all", ok, "update_map copies every atom of the source residue (loop over .atoms with no filter)",
-          f"pdb2pqr/forcefield.py:{um.lineno} (ForcefieldHandler.update_map)")
-    ee = prog.func("forcefield.py", "ForcefieldHandler.endElement").node
-    calls = [U(c.func) for c in calls_in(ee)]
-    r.add("uses-matcher", calls.count("self.find_matching_names") >= 2,
-          f"endElement resolves residue patterns through find_matching_names ({calls.count('self.find_matching_names')} uses)",
-          f"pdb2pqr/forcefield.py:{ee.lineno} (ForcefieldHandler.endElement)")
+    """The names handler is executed on object models: a model force field, a model definition map and the SAX event
+    stream of a model names file that exercises every documented construct; the resulting alias structure is compared
+    with the documented meaning."""
+    from ..objinterp import ObjRunner
+    r = rep.rule("R4", "names-file patterns are applied as full matches; aliasing copies every atom", floor=5)
+    hc = prog.cls("forcefield.py", "ForcefieldHandler")
+    where = f"pdb2pqr/forcefield.py:{hc.node.lineno} (ForcefieldHandler)"
+    run = ObjRunner(prog, "forcefield.py")
+    atoms = {}
 
+    def atom(n):
+        return atoms.setdefault(n, {"__class__": "ForcefieldAtom", "name": f"a{n}", "id": n})
 
-    # the SAX field bindings of the names handler: element -> attribute, and the alias direction
-    ch = prog.func("forcefield.py", "ForcefieldHandler.characters").node
-    binds = {}
-    for st in ast.walk(ch):
-        if isinstance(st, ast.If) and isinstance(st.test, ast.Compare) and U(st.test.left) == "self.curelement":
-            k = st.test.comparators[0].value if isinstance(st.test.comparators[0], ast.Constant) else None
-            for x in st.body:
-                if isinstance(x, ast.Assign) and U(x.value) == "text":
-                    binds[k] = U(x.targets[0])
-    want = {"residue": "self.newresname", "atom": "self.newatomname", "useatomname": "self.oldatomname", "useresname": "self.oldresname"}
-    r.add("sax-field-bindings", binds == want, f"names-file elements are stored as {binds}; the documented format binds "
-          "<name> of residue/atom to the canonical name and <use*name> to the force field's own name",
-          f"pdb2pqr/forcefield.py:{ch.lineno} (ForcefieldHandler.characters)")
-    se = prog.func("forcefield.py", "ForcefieldHandler.startElement").node
-    ifs = [x for x in se.body if isinstance(x, ast.If)]
-    r.add("sax-name-element", len(ifs) == 1 and U(ifs[0].test) == "name != 'name'" and [U(x) for x in ifs[0].body] == ["self.curelement = name"], "the <name> child does not change the current element (its text is "
-          "filed under the enclosing residue/atom)", f"pdb2pqr/forcefield.py:{se.lineno} (ForcefieldHandler.startElement)")
-    etxt = U(ee)
-    r.add("alias-direction", "self.atommap[self.newatomname] = self.oldatomname" in etxt and "oldname = self.atommap[newname]" in etxt
-          and "self.update_map(newname, oldname, residue.atoms)" in etxt and "if oldname not in residue.atoms:\n    continue" in etxt.replace("        ", ""),
-          "atom aliases map canonical name -> force-field name and copy residue.atoms[old] to the new key only when the old one exists",
-          f"pdb2pqr/forcefield.py:{ee.lineno} (ForcefieldHandler.endElement)")
-    r.add("group-substitution", "fromname = self.oldresname.replace('$group', group)" in etxt and "group = resitem.group(1)" in etxt
-          and "if fromname in self.map:" in etxt, "$group is replaced by the first capture group of the matched canonical name, and only existing "
-          "source residues are copied", f"pdb2pqr/forcefield.py:{ee.lineno} (ForcefieldHandler.endElement)")
-    umt = U(um)
-    r.add("atom-copy", "elif isinstance(fromobj, ForcefieldAtom):\n    map_[toname] = fromobj" in umt.replace("        ", "    ").replace("    elif", "elif") or
-          "map_[toname] = fromobj" in umt, "an atom alias points at the very same parameter object (no copy with edits)",
-          f"pdb2pqr/forcefield.py:{um.lineno} (ForcefieldHandler.update_map)")
+    ffmap = {}
+    for res, ats in NAMES_FF.items():
+        ffmap[res] = {"__class__": "ForcefieldResidue", "name": res, "atoms": {a: atom(n) for a, n in ats.items()}}
+    reference = {k: {"__class__": "DefinitionResidue", "name": k} for k in NAMES_REFERENCE}
+    handler = run.new("ForcefieldHandler", ffmap, reference)
+    meth = {"start": "startElement", "end": "endElement", "chars": "characters"}
+    for kind, val in names_events():
+        if kind == "start":
+            run.call(handler, meth[kind], val, {})
+        else:
+            run.call(handler, meth[kind], val)
+    got = {}
+    for res, obj in ffmap.items():
+        if not (isinstance(obj, dict) and isinstance(obj.get("atoms"), dict)):
+            raise AnalysisError(f"names handler left a non-residue object under {res!r}")
+        got[res] = {a: (x.get("id") if isinstance(x, dict) else None) for a, x in obj["atoms"].items()}
+    want = names_expected()
+    r.info["model"] = {"force_field": NAMES_FF, "definition_names": NAMES_REFERENCE, "names_blocks": NAMES_BLOCKS,
+                       "methods_interpreted": sorted(set(run.calls))}
+
+    def diff(keys):
+        out = []
+        for k in keys:
+            if want.get(k) != got.get(k):
+                out.append(f"{k}: expected {want.get(k)}, handler produced {got.get(k)}")
+        return out
+
+    aspects = {
+        "residue-alias": (["RES"], "a <residue> block makes the canonical name an alias of the force field's residue: every atom entry is copied "
+                          "and points at the very same parameter object; <useatomname> entries add the canonical atom name only when the "
+                          "force-field atom exists"),
+        "full-match": (["RESB", "XRES", "RESQ", "FFR"], "the <name> pattern must match a whole name: RESB (prefix), XRES (substring) and the "
+                       "force-field entry RESQ are not touched by the pattern RES"),
+        "group": (["NALA", "NGLY", "XALA"], "$group is replaced by the first capture group of the matched name and only existing source "
+                  "residues are copied"),
+        "no-state-leak": (["GLY"], "atom aliases of one <residue> block do not leak into the next; a block without <useresname> only adds "
+                          "atom aliases"),
+    }
+    for key, (names, what) in aspects.items():
+        d = diff(names)
+        r.add(f"names|{key}", not d, what + (f" -- BUT {'; '.join(d)}" if d else ""), where)
+    extra = sorted(set(got) - set(want))
+    r.add("names|no-extra-entries", not extra, f"entries created beyond the documented meaning: {extra or 'none'}", where)
 
 
 # ---------------------------------------------------------------------------------- R5
